@@ -154,6 +154,8 @@ def bridge_file(b):
         return 'Effects.lean'
     if b.startswith('mech_'):
         return 'Mech.lean'
+    if b.startswith('locks_'):
+        return 'Locks.lean'
     if b.startswith('sig') or b.startswith('callArity'):
         return 'Sigs.lean'
     if b.startswith('msg_'):
